@@ -223,6 +223,8 @@ psRes_t psPkcs8ParsePrivBin(psPool_t *pool,
     psCipherContext_t ctx;
     char iv[8], salt[8];
     int32 icount;
+    unsigned char *plain;
+    psRes_t rc;
 #  endif /* USE_PKCS5 */
 
     /* Check for too large (invalid) inputs, unparseable with uint16_t */
@@ -350,8 +352,17 @@ psRes_t psPkcs8ParsePrivBin(psPool_t *pool,
         psPkcs5Pbkdf2((unsigned char *) pass, (int32) Strlen(pass),
             (unsigned char *) salt, 8, icount, (unsigned char *) desKeyBin,
             DES3_KEYLEN);
+        /* Decrypt into a buffer of our own: the input belongs to the
+           caller, is const, and may live in read-only memory */
+        plain = psMalloc(pool, len);
+        if (plain == NULL)
+        {
+            memset_s(desKeyBin, DES3_KEYLEN, 0x0, DES3_KEYLEN);
+            return PS_MEM_FAIL;
+        }
         psDes3Init(&ctx.des3, (unsigned char *) iv, desKeyBin);
-        psDes3Decrypt(&ctx.des3, p, (unsigned char *) p, len);
+        psDes3Decrypt(&ctx.des3, p, plain, len);
+        p = plain;
         /* @security SECURITY - we zero out des3 key when done with it */
         memset_s(&ctx, sizeof(psCipherContext_t), 0x0, sizeof(psCipherContext_t));
         memset_s(desKeyBin, DES3_KEYLEN, 0x0, DES3_KEYLEN);
@@ -368,7 +379,8 @@ psRes_t psPkcs8ParsePrivBin(psPool_t *pool,
         {
             /* coverity[dead_error_begin] */
             psTraceCrypto("PKCS#8 padding error\n");
-            return PS_FAILURE;
+            rc = PS_FAILURE;
+            goto out_plain;
         }
         /* Padding errors are considered as "PS_AUTH_FAIL",
            because the padding is incorrect with overwhelming probability
@@ -379,7 +391,8 @@ psRes_t psPkcs8ParsePrivBin(psPool_t *pool,
         if (plen < 1 || plen > 16)
         {
             psTraceCrypto("PKCS#8 padding error\n");
-            return PS_AUTH_FAIL;
+            rc = PS_AUTH_FAIL;
+            goto out_plain;
         }
         /* coverity[dead_error_condition] */
         /* With the current value for MIN_ECC_BITS and MIN_RSA_BITS
@@ -389,21 +402,30 @@ psRes_t psPkcs8ParsePrivBin(psPool_t *pool,
         {
             /* coverity[dead_error_begin] */
             psTraceCrypto("PKCS#8 padding error\n");
-            return PS_FAILURE;
+            rc = PS_FAILURE;
+            goto out_plain;
         }
         for(i = 0; i < plen; i++)
         {
             if (p[len - i - 1] != (unsigned char) plen)
             {
                 psTraceCrypto("PKCS#8 padding error\n");
-                return PS_AUTH_FAIL;
+                rc = PS_AUTH_FAIL;
+                goto out_plain;
             }
         }
 
-        /* The padding has been processed. */
-        size = len - plen;
-        end = p + size;
-        buf = (unsigned char *)p;
+        /* The padding has been processed: what is left is an unencrypted
+           PrivateKeyInfo */
+        rc = psPkcs8ParsePrivBin(pool, plain, len - plen, NULL, key);
+        if (rc < 0)
+        {
+            psTraceCrypto("Is it possible the password is incorrect?\n");
+        }
+out_plain:
+        memset_s(plain, len, 0x0, len);
+        psFree(plain, pool);
+        return rc;
 #  else /* !USE_PKCS5 */
 /*
         The private key is encrypted, but PKCS5 support has been turned off
